@@ -5,6 +5,11 @@ PROGS = {
  # an instruction after an odd number of data bytes: the assembler pads with one 0 byte (offset 11), which is not program content
  "msp430_odd": (".msp430\\n.org 0x200\\nstart:\\n  mov.w &%u, r5\\n  add.w r5, r6\\n  .db %u, %u, 3\\n  .dw %u\\n  jmp start\\n", 1, 1, 0x200, 13, "11,"),
  "6502":   (".6502\\n.org 0x300\\n  lda #%u & 255\\n  sta 0x10\\n.db %u, %u\\n  jmp %u\\n", 0, 1, 0x300, 9, ""),
+ # data that is not produced by .db/.dw: .data_fill alone, wide/string directives, an included binary file, a reserved gap
+ "6502_fill":  (".6502\\n.org 0x300\\n  lda #%u & 255\\n.data_fill %u, 6\\n  ldx #%u\\n  jmp %u\\n", 0, 1, 0x300, 13, ""),
+ "6502_wide":  (".6502\\n.org 0x300\\n.dc16 %u\\n.dc32 %u\\n.ascii \\\"xy\\\"\\n.asciiz \\\"z\\\"\\n.dq 0x1122334455667788\\n.db %u\\n  jmp %u\\n", 0, 1, 0x300, 22, ""),
+ "6502_binfile": (".6502\\n.org 0x300\\n  lda #%u & 255\\n.binfile \\\"blob.bin\\\"\\n  ldx #%u + %u & 255\\n  jmp %u\\n", 0, 1, 0x300, 10, ""),
+ "6502_resb":  (".6502\\n.org 0x300\\n.db %u & 255\\n.resb 3\\n.db %u, %u\\n  jmp %u\\n", 0, 1, 0x300, 6, "1,2,3,"),
  "z80":    (".z80\\n.org 0x100\\n  ld hl, %u\\n  ld a, %u\\n.db %u\\n  jp %u\\n", 0, 1, 0x100, 9, ""),
 }
 def jobs(tier):
